@@ -56,6 +56,23 @@ def main(argv=None):
                 out.stats.case(rec["case"], nontrivial=True)
         else:
             out = mod.run(ctx)
+            # replay tier: saved regression inputs (shrunk failures of
+            # repaired defects) are re-executed on every run, bypassing the
+            # generators.  Run-based checks fold them into their case list
+            # themselves (USES_KNOWN_CASES).
+            if not getattr(mod, "USES_KNOWN_CASES", False):
+                import glob
+
+                for rp in sorted(glob.glob(os.path.join(
+                        ROOT, "replays", "regress", f"{prop}-*.json"))):
+                    rec = json.load(open(rp))
+                    res = mod.replay(ctx, rec["case"])
+                    if isinstance(res, Outcome):
+                        out.violations.extend(res.violations)
+                    else:
+                        for v in res or []:
+                            out.add(v)
+                    out.stats.classes["regression-replays"] += 1
     except Exception:
         traceback.print_exc()
         print(f"HARNESS-ERROR property={prop}")
